@@ -6,6 +6,7 @@ package main
 import (
 	"fmt"
 	"go/types"
+	"os"
 )
 
 func (in *Interp) inputVar(name, kind string, sort Sort) *Term {
@@ -125,6 +126,12 @@ func registerHarnessIntrinsics() {
 			}
 		}
 		in.emit("h:"+concName(args[0]), as...)
+		return nil, true
+	})
+	reg("vDump", func(in *Interp, fr *frame, args []Value) (Value, bool) {
+		if os.Getenv("GOSYM_DEBUG") != "" {
+			fmt.Fprintf(os.Stderr, "DUMP %v %s: %v\n", in.path.taken, concName(args[0]), args[1])
+		}
 		return nil, true
 	})
 	reg("vIsEngine", func(in *Interp, fr *frame, args []Value) (Value, bool) { return true, true })
